@@ -61,9 +61,10 @@ def run(tier, replay):
     wd = lib.workdir(PID)
     lib.build("txn")
     quick = tier == "quick"
-    mc = lib.tlc("KTxnSnapMC", cfg="KTxnSnapMC", pid=PID, workers=1, timeout=900)
+    order, sfx, order_labels = txn_common.commit_order()
+    mc = lib.tlc("KTxnSnapMC", cfg="KTxnSnapMC" + sfx, pid=PID, workers=1, timeout=900)
     lib.tlc_must_pass(mc, "KTxnSnapMC: reader/writer interleavings at pause-point granularity")
-    fine = lib.tlc("KTxnSnapMC", cfg="KTxnSnapFine", pid=PID, workers=1, timeout=900, tag="KTxnSnapFine")
+    fine = lib.tlc("KTxnSnapMC", cfg="KTxnSnapFine" + sfx, pid=PID, workers=1, timeout=900, tag="KTxnSnapFine")
     lib.tlc_must_pass(fine, "KTxnSnapFine: reader/writer interleavings at statement granularity")
     byvec = {}
     for t in mc["tuples"]:
@@ -105,7 +106,7 @@ def run(tier, replay):
                 f.write(json.dumps(rec) + "\n")
         lib.kverif("txn", ["c06", "--out", obs, "--db", db, "--schedules", f"{wd}/schedules.ndjson"], timeout=3000)
     txn_common.cleanup(db)
-    tv = lib.trace_validate("KTxnSnapTrace", obs, PID, timeout=1800)
+    tv = lib.trace_validate("KTxnSnapTrace", obs, PID, cfg="KTxnSnapTrace" + sfx, timeout=1800)
     lines = lib.read_lines(obs)
     recs = [json.loads(l) for l in lines]
     for t in tv["l1fail"]:
@@ -120,6 +121,7 @@ def run(tier, replay):
         v = "".join(str(r["o1"][p]) for p in PROBES)
         seen[v] = seen.get(v, 0) + 1
     R.coverage = {
+        "commit_order_of_tree_under_test": order,
         "states": mc["distinct"] + fine["distinct"], "transitions": mc["generated"] + fine["generated"],
         "traces_validated_against_impl": len(recs),
         "samples": [{k: r[k] for k in ("s", "o1", "o2", "raw1")} for r in recs[:1] + recs[len(recs) // 2:len(recs) // 2 + 1] + recs[-1:]],
